@@ -1,5 +1,5 @@
 (* C07 — unknown-size masters end where EBML says; same tags as the known-size encoding.  Statements only. *)
-From Ebml Require Import Base Tools Spec Writer Reader Pure Encode Proofs.Tactics Proofs.SpecProofs Proofs.PureProofs Proofs.RoundTrip.
+From Ebml Require Import Base Tools Spec Writer Reader Pure Encode Proofs.Tactics Proofs.SpecProofs Proofs.Globals Proofs.PureProofs Proofs.RoundTrip.
 
 (* which elements end an open unknown-size master: exactly a parent instance, a sibling, or a root element — by definition
    of is_ended_by; the closing loop over the stack of open masters closes exactly the innermost run of unknown-size masters
@@ -9,6 +9,16 @@ Theorem C07_closing_rule : forall sp tid stk, closes sp tid stk (count_ended sp 
 Proof. exact count_ended_closes. Qed.
 Theorem C07_closing_max : forall sp tid stk k, closes sp tid stk k -> (k <= count_ended sp tid stk)%nat.
 Proof. exact count_ended_max. Qed.
+
+(* global elements never close an unknown-size master: an element whose declared path contains a placeholder does not end a
+   master whose declared path names all its parents (unless that path names the element itself as a parent), so with only such
+   masters open it closes nothing and is read as a child of the innermost one *)
+Theorem C07_global_never_ends : forall sp m g, has_global (get_path sp g) = true -> has_global (get_path sp m) = false ->
+  is_parent sp m g = false -> is_ended_by sp m g = false.
+Proof. exact global_never_ends. Qed.
+Theorem C07_global_closes_nothing : forall sp g, has_global (get_path sp g) = true -> forall stk,
+  Forall (fun f => has_global (get_path sp (fst f)) = false /\ is_parent sp (fst f) g = false) stk -> count_ended sp g stk = O.
+Proof. exact global_closes_nothing. Qed.
 
 (* two conforming documents with the same tags read as the same tag sequence, whatever masters each encodes with unknown
    size and whatever size widths each uses (PARTIAL: declared paths without global placeholders) *)
